@@ -3,7 +3,7 @@ CONSTANTS Variant = "ok"
  NoneMode = "dedup"
  RmAllMode = "required"
  MCP = 5
- MCShapes = {"rm4p", "rm4", "add3", "rm4pp"}
+ MCShapes = {"rm4p", "add3"}
  MCVs = {1}
  PolyMode = "one"
  OrderMode = "eager"
